@@ -199,6 +199,14 @@ void nmc_enumerate(const nmc::Tier& t, const nmc::Sink& emit0) {
         long d = (long)s.size(), lo = -d - 2, hi = d + 1; int k = d <= 2 ? 2 : 1;
         lists(0, k, lo, hi, [&](const L& src) { lists(0, k, lo, hi, [&](const L& dst) { emit(Case("moveaxis", {s, src, dst})); }); });
         if (d == 3 || (d == 4 && T)) lists(2, 2, -d, d, [&](const L& src) { lists(2, 2, -d, d, [&](const L& dst) { emit(Case("moveaxis", {s, src, dst})); }); });
+        // full-length lists on rank 3: every in-range source triple (repeats in every position and spelling: (0,1,0), (0,1,-3), ...) against destinations that are a
+        // permutation in three spellings, a rotation, a repeat and an out-of-range entry (seeded change m15b: a duplicate check that only compares neighbours in
+        // destination order needs >= 3 axes to be wrong); thorough: the same with the roles of source and destination exchanged
+        if (d == 3) {
+            static const std::vector<L> fixed = {{0, 1, 2}, {2, 1, 0}, {-1, -2, -3}, {1, 2, 0}, {0, 0, 1}, {0, 1, 3}};
+            lists(3, 3, -3, 2, [&](const L& src) { for (auto& dst : fixed) emit(Case("moveaxis", {s, src, dst})); });
+            if (T) lists(3, 3, -3, 2, [&](const L& dst) { for (auto& src : fixed) emit(Case("moveaxis", {s, src, dst})); });
+        }
     });
 #endif
 #ifdef C15_REDUCE
